@@ -34,7 +34,7 @@ ALPHA = {
     "I": [0, 1, 2**31, 2**32 - 1],
     "d": [0.0, 0.1, -1 / 3, 1e300, -5e-324, 235959.99],
     "b": [-128, 0, 127],
-    "str": ["", "a", "J0437-4715 with spaces " + "x" * 57, " B0531+21  ", "  ", "tab\tname "],
+    "str": ["", "a", "J0437-4715 with spaces " + "x" * 57, " B0531+21  ", "  ", "tab\tname ", "/data/obs/2026-10-01/" + "p" * 60, "/very/long/path/" + "q" * 284 + ".raw"],
 }
 MANDATORY = [("nchans", 3), ("nbits", 8)]
 
@@ -185,7 +185,7 @@ def _field_cases(part: str, tier: str):
                 for j, (d, e) in enumerate(itertools.product(tsamps, tstarts)):
                     yield {"fch1": a, "foff": b, "nchans": c, "tsamp": d, "tstart": e, "nbits": nbs[(i + j) % 6]}
     elif part == "misc":
-        for s in ["", "a", "J1234+5678", "B1937+21 (test)", "n" * 80, " B0531+21  ", "trailing ", " leading"]:
+        for s in ["", "a", "J1234+5678", "B1937+21 (test)", "n" * 80, " B0531+21  ", "trailing ", " leading", "m" * 81, "k" * 133, "w" * 300]:
             yield {"source": s}
         for ib, nb in itertools.product([0, 1, 13], repeat=2):
             yield {"ibeam": ib, "nbeams": nb}
